@@ -89,6 +89,15 @@ CHECKS = {
              "spec's label oracle (same statement, never another one, never dangling), across chains and for implicit forwarding.",
         note="Trusted: TLC; label extraction from unique literals; block cursors judged by the edge criterion; moves into a later "
              "sibling subtree of an ancestor (never produced by public primitives) are replayed but excluded from FwdSound."),
+    "C11": dict(level=MC, design="6/C11",
+        technique="TLA+ refinement check (ProcEqv: implementation-shaped union-finds vs abstract per-field closure) by TLC, history replay into proc_eqv, trace validation of recorded sessions (ProcEqvTrace)",
+        text="TLC explores all histories of procedure creation, derivation with arbitrary modsets and assert_eqv over 4 procedures / 2 "
+             "keys up to 5 (thorough 6) steps with keys first mentioned at any point, proving that the union-find scheme answers "
+             "exactly the per-field reflexive-symmetric-transitive closure and never relates different origins; one witness history "
+             "per state is replayed through Procedure/unsafe_assert_eq and all pairwise answers of get_strictest_eqv_proc, "
+             "check_eqv_proc and is_eq are compared; histories recorded from random real scheduling sessions are validated as "
+             "behaviours of the specification together with the tracker's final answers.",
+        note="Trusted: TLC; per-field reading of the property; tracker globals reset between replayed histories."),
 }
 
 NOT_YET = {}
